@@ -20,7 +20,7 @@ SIM_TECH = "deterministic simulation: seeded trace generation (one PRNG from VER
 
 CHECKS = {
  "C01": ("exploration",
-         "Seeded search over producer modules pushed through a legally REORDERING medium (module-level instructions moved anywhere incl. into blocks, sections permuted, parameters moved behind blocks, string padding and spare version bytes randomised), then real load -> real assemble -> real load; conservation / exactly-once / stable-order oracle word for word against an independent reference encoder and the bracket automaton's layout sort. Also injects storage faults the loader should reject (string bytes made invalid UTF-8, undeclared enumerant words, stray structural instructions): if the loader accepts such an input anyway, frame-level conservation (same words, none dropped or invented) is still demanded. Rare scale lanes (0xFFFF-word instructions, 65k+/262k-byte strings, 66k tracked ids), boundary ids and header values. Sampling over 3e5 modules per quick run; all opcodes whose layout class the statement fixes are exercised. For inputs the loader accepts although the reference rejects them, relative order inside every output section, parameter list and function is demanded as well. Further hot spots: stray OpLine + body instruction outside blocks, declarations moved into a block behind an OpLine, registered extension names, boundary header bounds, linkage decorations on function ids, merge instructions naming the next label, dense ids across 2^k boundaries.",
+         "Seeded search over producer modules pushed through a legally REORDERING medium (module-level instructions moved anywhere incl. into blocks, sections permuted, parameters moved behind blocks, string padding and spare version bytes randomised), then real load -> real assemble -> real load; conservation / exactly-once / stable-order oracle word for word against an independent reference encoder and the bracket automaton's layout sort. Also injects storage faults the loader should reject (string bytes made invalid UTF-8, undeclared enumerant words, stray structural instructions): if the loader accepts such an input anyway, frame-level conservation (same words, none dropped or invented) is still demanded. Rare scale lanes (0xFFFF-word instructions, 65k+/262k-byte strings, 66k tracked ids), boundary ids and header values. Sampling over 5e5 modules per quick run; all opcodes whose layout class the statement fixes are exercised. For inputs the loader accepts although the reference rejects them, relative order inside every output section, parameter list and function is demanded as well. Further hot spots: stray OpLine + body instruction outside blocks, declarations moved into a block behind an OpLine, registered extension names, boundary header bounds, linkage decorations on function ids, merge instructions naming the next label, dense ids across 2^k boundaries.",
          "Trusts the reference encoder, the reference acceptor (its reading of the input bytes defines 'the input's instructions'), the hand-transcribed layout table (DESIGN §3.4) and the frozen grammar snapshot. Conditional on acceptance: a module the real loader rejects is skipped (C05 reports that).",
          SIM_TECH + "; faults = legal message reordering / padding corruption", "§5 C01"),
  "C03": ("fault_enumeration",
